@@ -123,6 +123,9 @@ func (vc *VC) smtText(o *Obl, cover bool) string {
 	for _, d := range vc.decls {
 		b.WriteString(d + "\n")
 	}
+	for _, a := range vc.entryClosureAxioms() {
+		b.WriteString("(assert " + a + ")\n")
+	}
 	for _, a := range vc.allocFrameAxioms(o.NFacts, names) {
 		b.WriteString("(assert " + a + ")\n")
 	}
@@ -181,8 +184,42 @@ func solveAll(vcs []*VC, opts solveOpts) []*Result {
 			defer wg.Done()
 			defer func() { <-sem }()
 			fname := filepath.Join(opts.workDir, sanitize(j.o.Func+"__"+j.o.Name)+".smt2")
-			os.WriteFile(fname, []byte(j.vc.smtText(j.o, j.cover)), 0o644)
-			results[i] = solveOne(j.o, fname, j.cover, opts)
+			txt := j.vc.smtText(j.o, j.cover)
+			os.WriteFile(fname, []byte(txt), 0o644)
+			noLong := opts
+			noLong.fullS = 0
+			r := solveOne(j.o, fname, j.cover, noLong)
+			triedSplit := false
+			if !j.cover && r.Status != "unsat" && !opts.quickOnly[oblID(j.o)] {
+				triedSplit = true
+				// case split over the paths that join at the obligation's block:
+				// E-matching does not look through the join of two heaps
+				if parts := j.vc.splitsOf(j.o); len(parts) > 1 {
+					all := true
+					var ms int64
+					for k, e := range parts {
+						sf := strings.TrimSuffix(fname, ".smt2") + fmt.Sprintf("__split%d.smt2", k)
+						st := strings.Replace(txt, "(check-sat)", "(assert "+e+")\n(check-sat)", 1)
+						os.WriteFile(sf, []byte(st), 0o644)
+						rs := solveOne(j.o, sf, false, opts)
+						ms += rs.Ms
+						if rs.Status != "unsat" {
+							all = false
+							break
+						}
+					}
+					if all {
+						r = &Result{Obl: j.o, Status: "unsat", Backend: "path-split", Ms: r.Ms + ms, File: fname}
+					}
+				}
+			}
+			if !j.cover && r.Status != "unsat" && triedSplit {
+				// the long last stage on the whole obligation
+				r2 := solveOne(j.o, fname, j.cover, opts)
+				r2.Ms += r.Ms
+				r = r2
+			}
+			results[i] = r
 		}()
 	}
 	wg.Wait()
@@ -256,6 +293,9 @@ func solveOne(o *Obl, file string, cover bool, opts solveOpts) *Result {
 		return &Result{Obl: o, Status: "sat", Backend: b1.name + "(unknown-accepted)", Ms: b1.ms, File: file}
 	}
 	if opts.quickOnly[oblID(o)] {
+		return &Result{Obl: o, Status: b1.st, Backend: b1.name, Ms: b1.ms, File: file, Output: b1.out}
+	}
+	if opts.fullS <= 0 {
 		return &Result{Obl: o, Status: b1.st, Backend: b1.name, Ms: b1.ms, File: file, Output: b1.out}
 	}
 	// stage 2: the other back ends, longer limit
@@ -373,4 +413,63 @@ func (vc *VC) allocFrameAxioms(nfacts int, specs []string) []string {
 		}
 	}
 	return out
+}
+
+// splitsOf: the incoming path conditions of the block an obligation sits in
+// (reach_B = (or e1 e2 ...)); reach_B implies their disjunction, so proving
+// the obligation under each of them proves it.
+func (vc *VC) splitsOf(o *Obl) []string {
+	g := o.Guard
+	topArgs := func(body string) []string {
+		var parts []string
+		depth, start := 0, 0
+		for i := 0; i <= len(body); i++ {
+			if i == len(body) || (body[i] == ' ' && depth == 0) {
+				if i > start {
+					parts = append(parts, body[start:i])
+				}
+				start = i + 1
+				continue
+			}
+			switch body[i] {
+			case '(':
+				depth++
+			case ')':
+				depth--
+			}
+		}
+		return parts
+	}
+	for step := 0; step < 12; step++ {
+		if g == "" || strings.ContainsAny(g, " ()") {
+			return nil
+		}
+		pre := "(= " + g + " "
+		rhs := ""
+		for _, f := range vc.facts[:o.NFacts] {
+			if strings.HasPrefix(f, pre) && strings.HasSuffix(f, ")") {
+				rhs = f[len(pre) : len(f)-1]
+				break
+			}
+		}
+		switch {
+		case rhs == "":
+			return nil
+		case strings.HasPrefix(rhs, "(or ") && strings.HasSuffix(rhs, ")"):
+			return topArgs(rhs[4 : len(rhs)-1])
+		case strings.HasPrefix(rhs, "(and ") && strings.HasSuffix(rhs, ")"):
+			// an edge: (and reach_pred cond): walk up to the predecessor block
+			as := topArgs(rhs[5 : len(rhs)-1])
+			g = ""
+			for _, a := range as {
+				if strings.HasPrefix(a, "reach_") || strings.HasPrefix(a, "edge_") || strings.HasPrefix(a, "latch") {
+					g = a
+					break
+				}
+			}
+		default:
+			g = rhs
+		}
+	}
+	return nil
 }
